@@ -161,3 +161,19 @@ Proof.
       * intros x. split; [intros Hc; split; [exact Hc|exact (W_covers_ge _ _ _ Hw' Hc)]|intros [Hc _]; exact Hc].
       * intros x Hx. lia.
 Qed.
+
+Lemma W_raise lo lo' l :
+  W lo l -> (forall y, lo <= y < lo' -> ~ covers l y) -> W lo' l.
+Proof.
+  destruct l as [|[s e] t]; cbn; [auto|]. intros (A & B & C) H. repeat split; auto.
+  destruct (Z_lt_dec s lo'); [|lia]. exfalso. apply (H s); [lia|]. apply covers_cons. left. lia.
+Qed.
+
+Lemma W_hi_empty lo hi l : W lo l -> (forall y, covers l y -> y < hi) -> hi <= lo -> l = [].
+Proof.
+  destruct l as [|[s e] t]; [auto|]. cbn. intros (A & B & C) H Hl. exfalso.
+  assert (s < hi) by (apply H; apply covers_cons; left; lia). lia.
+Qed.
+
+Lemma covers_tail s e t y : covers t y -> covers ((s, e) :: t) y.
+Proof. intros H. apply covers_cons. auto. Qed.
